@@ -149,6 +149,12 @@ def r1(ctx, facts):
             ok = ok and isnode(se) and se["k"] == "BinaryOperator" and se["op"] == "/" and var_ref(se["lhs"]) == ns and const_val(se["rhs"]) == 1000000000
     ctx.ob("C13.R1e", "format_timestamp:nanosecond-remainder", ok,
            "the fraction is ns - (ns / 1e9) * 1e9 of the same timestamp whose seconds are handed to strftime", fn=f)
+    # R1g: the reused date buffer is cleared before anything is appended for this timestamp
+    g_ = f.g
+    clr = npos(f, [c for c in f.calls(r"::clear$") if is_this_field(call_obj(c), "_formatted_date")])
+    app = npos(f, [c for c in f.calls(r"::append\b") if is_this_field(call_obj(c), "_formatted_date")])
+    ctx.ob("C13.R1g", "format_timestamp:buffer-cleared-first", bool(clr) and bool(app) and all(g_.dominates(clr, p) for p in app),
+           "the cached output buffer is cleared on every path before the parts of this timestamp are appended (no stale text)", fn=f)
     w = facts.need(TF + "::_write_fractional_seconds", "A")[0]
     mc = w.calls(r"^(std::)?memcpy$")
     ok = False
